@@ -35,6 +35,7 @@ type WaitCase struct {
 	WaitInPrep bool `json:"wait_in_prep,omitempty"` // func kind: the node is built without a wait; its prep function configures the wait (builder method) before it returns
 	CtxNearMs int `json:"ctx_near_ms,omitempty"` // with Cancel: the context also carries a deadline this many ms away — BEFORE the end of the hour-long wait, but long after the explicit cancel(): the error is still the context's (Canceled)
 	ErrKind string `json:"err_kind,omitempty"` // "ctx-timeout" / "ctx-canceled": failing attempts return an error that wraps context.DeadlineExceeded / context.Canceled although the run's context is alive (a per-attempt timeout)
+	SpinUs int `json:"spin_us,omitempty"` // batch: every failing attempt of item i ends i*SpinUs microseconds after it began (siblings' waits begin a fraction of a millisecond apart)
 	PreWaitNs int64 `json:"pre_wait_ns,omitempty"` // > 0: the node is first built with THIS wait and run once; then the wait is re-configured (builder method) to WaitNs and the measured run follows
 }
 
@@ -103,6 +104,11 @@ func (w *waitRun) exec(ctx context.Context, item int) (any, error) {
 		}
 		if w.cs.ExecUs > 0 {
 			time.Sleep(time.Duration(w.cs.ExecUs) * time.Microsecond)
+		}
+		if w.cs.SpinUs > 0 && item > 0 {
+			// item i's failing attempts end i*SpinUs later than item 0's (busy loop: sleeps are far coarser than that)
+			for t0 := time.Now(); time.Since(t0) < time.Duration(item*w.cs.SpinUs)*time.Microsecond; {
+			}
 		}
 		if item == 1 && a == 1 && w.cs.Slow1Us > 0 {
 			time.Sleep(time.Duration(w.cs.Slow1Us) * time.Microsecond)
@@ -462,6 +468,12 @@ func runC20(c *Cfg) {
 	for _, w := range []time.Duration{20 * time.Millisecond, 40 * time.Millisecond} {
 		cases = append(cases, &WaitCase{Family: "lower-bound-batch-stop", Kind: "batch", WaitNs: int64(w), N: 3, K: 4, C: 2, Items: 2, Stop: true, Slow1Us: int(w / 2 / time.Microsecond)})
 		cases = append(cases, &WaitCase{Family: "lower-bound-batch-stop", Kind: "batch", WaitNs: int64(w), N: 4, K: 5, K0: 3, C: 3, Items: 3, Stop: true, Slow1Us: int(w / 3 / time.Microsecond)})
+	}
+	// siblings whose waits begin a few hundred microseconds apart: each item's own wait is still a full w
+	for _, sp := range []int{150, 300, 450, 700} {
+		for _, cc := range []int{2, 4} {
+			cases = append(cases, &WaitCase{Family: "lower-bound-staggered-siblings", Kind: "batch", WaitNs: int64(20 * time.Millisecond), N: 3, K: 4, C: cc, Items: cc, SpinUs: sp, FB: sp == 300})
+		}
 	}
 	// upper bounds ("no wait before the first attempt or after the last one"): w = 300 ms
 	for _, kind := range []string{"struct", "func", "batch"} {
